@@ -96,6 +96,11 @@ pub fn mkfs_test() -> Result<(), String> {
             if let Some(f) = free {
                 check(refat::count_free(&fat, &v) as usize == f, format!("{}: free {}", name, refat::count_free(&fat, &v)))?;
             }
+            if v.nfats == 2 {
+                check(fat == refat::read_fat(&img, &v, 1), format!("{}: mkfs FAT copies differ", name))?;
+                let slack_equal = (0..v.fatsz).all(|s| img.rd(v.fat_block(0, s)) == img.rd(v.fat_block(1, s)));
+                check(slack_equal, format!("{}: mkfs FAT regions differ", name))?;
+            }
             let old = t.find("/OLD.DAT").ok_or("OLD.DAT missing")?;
             check(old.chain.len() == 3, "OLD.DAT chain".into())?;
             let lf = t.find("/LONGFI~1.TXT").ok_or("LONGFI~1.TXT missing")?;
